@@ -62,6 +62,9 @@ class RunResult(object):
     return d
 
 
+_ADDR = __import__("re").compile(r" at 0x[0-9a-fA-F]+")
+
+
 def _digest_events(events, extra=""):
   h = hashlib.sha256()
   h.update(json.dumps(events, sort_keys=True, default=repr).encode())
@@ -144,6 +147,8 @@ def execute(profile, seed=None, cfg=None, events=None, tier="quick", time_limit=
       final = json.dumps(sim.sigma, sort_keys=True, default=repr) if sim.sigma is not None else ""
     except (RecursionError, ValueError):
       final = "unserialisable"
+    # (a memory address inside the repr of an object that cannot travel is not part of the run)
+    final = _ADDR.sub(" at 0x?", final)
     res.digest = _digest_events(sim.events, json.dumps(res.violation, sort_keys=True, default=repr)
                                 + final + json.dumps(sim.counters, sort_keys=True))
   res.wall = time.time() - t0
